@@ -27,6 +27,7 @@ EXPLANATION = (
 EXPLANATION += " C13.R6: every ReadWriteLogRecord setter stores each parameter on every path. C13.R7: no path through SimpleLogRecordProcessor::OnEmit avoids the exporter's Export. C13.R1 (exposure of finding D9): while the SDK record keeps non-owning attribute values, the API container setter iterates the caller's container by reference."
 EXPLANATION += ' C13.R8 (callback contract): the attribute copy callbacks the log record and its API setter hand to ForEachKeyValue never ask the iteration to stop. C13.R2 and C13.R4 are evaluated on the flow graph with private / file-local helpers inlined (fan-out loops in range-for, index or iterator form).'
 ROUND2_EXPLANATION = (' C13.R9: an identity setter (re)creates the shared trace-identity block only when it is null (pinned). Shared C19.R7: every named constructor parameter of LoggerProvider / LoggerContext is used.')
+ROUND2_EXPLANATION += (" C13.R10: a string view built from a nullable name pointer (EventId::name_) is guarded by a null test of that pointer (D21, fixed). C13.R11: the API template overloads that receive a null record from CreateLogRecord return without dereferencing it. Shared C01.R5: every constructor of the batch log processor creates its queue with the configured max_queue_size.")
 EXPLANATION += ROUND2_EXPLANATION
 NOT_DECIDED = 'value equality at export; that every argument combination compiles to the documented setter beyond the instantiated ones.'
 
